@@ -173,6 +173,38 @@ def gen_history(rng, nops, files=(1,), backend="BE", big=False, wide=False, path
                                                      rng.randbytes(prod(md) * TYPES[n["dt"]]).hex()))
             if not ro:
                 n["written"] = True
+        elif r < 0.49 and written and not ro:
+            # directed: grow a written array keeping type and rank (ADF then keeps the data and appends a data chunk),
+            # fill it, and address the elements on both sides of the old end -- the first element of the new chunk --
+            # with strided, block and full transfers
+            u = rng.choice(written); n = m.nodes[u]; ty = n["dt"]; w = TYPES[ty]
+            old_tot = prod(n["dims"])
+            if old_tot * w <= 120000:
+                nd = list(n["dims"]); nd[-1] += rng.choice([1, 2, 7, max(1, nd[-1] // 2), nd[-1]])
+                tot = prod(nd)
+                lines.append("dims %d %d %s %s" % (f, u, ty, ",".join(map(str, nd))))
+                lines.append("wall %d %d %s" % (f, u, rng.randbytes(tot * w).hex()))
+                n.update(dims=nd, written=True)
+                lines.append("rall %d %d" % (f, u))
+                if len(nd) == 1:
+                    for _ in range(rng.randint(1, 3)):
+                        st = rng.choice([1, 1, 2, 3])
+                        k0 = rng.randint(0, 3)                       # element old_tot + 1 is hit when k0 % st == 0 ...
+                        s0 = max(1, old_tot + 1 - k0 * st)
+                        e0 = min(tot, old_tot + 1 + rng.randint(0, 4) * st)
+                        e0 = s0 + ((e0 - s0) // st) * st
+                        cnt = (e0 - s0) // st + 1
+                        md, ms = mem_for(rng, cnt)
+                        lines.append("wsel %d %d %s %s %s %s" % (f, u, sel_str([(s0, e0, st)]), ",".join(map(str, md)), sel_str(ms),
+                                                                 rng.randbytes(prod(md) * w).hex()))
+                        lines.append("rsel %d %d %s %d %s %s" % (f, u, sel_str([(max(1, old_tot - 2), min(tot, old_tot + 4), 1)]),
+                                                                 min(tot, old_tot + 4) - max(1, old_tot - 2) + 1,
+                                                                 "1:%d:1" % (min(tot, old_tot + 4) - max(1, old_tot - 2) + 1),
+                                                                 (b"\xee" * ((min(tot, old_tot + 4) - max(1, old_tot - 2) + 1) * w)).hex()))
+                b = max(1, old_tot - rng.randint(0, 2)); e = min(tot, old_tot + 1 + rng.randint(0, 3))
+                lines.append("wblock %d %d %d %d %s" % (f, u, b, e, rng.randbytes((e - b + 1) * w).hex()))
+                lines.append("rblock %d %d %d %d" % (f, u, max(1, old_tot - 1), min(tot, old_tot + 2)))
+                lines.append("rall %d %d" % (f, u))
         elif r < 0.53 and written:
             lines.append("rall %d %d" % (f, rng.choice(written)))
         elif r < 0.57 and written:
@@ -192,6 +224,8 @@ def gen_history(rng, nops, files=(1,), backend="BE", big=False, wide=False, path
         elif r < 0.74:
             u = rng.choice(alive); k = len(m.kids(u))
             s = rng.randint(1, max(1, k)); n = rng.choice([1, 1, max(1, k), k + 2, rng.randint(1, k + 1)])
+            if rng.random() < 0.15:
+                s = k + rng.randint(1, 3)          # a window that starts beyond the last child: no name, on both back ends
             lines.append("names %d %d %d %d" % (f, u, s, n))
         elif r < 0.80:
             u = rng.choice(nonroot)
